@@ -213,8 +213,8 @@ def apply(op, s: State, v: Verdict):
             fresh.items.append(obj.copy())
         s.acl = fresh
     elif name in ("insert", "append"):
-        if s.group_by or any(type(o).__name__ == "AceGroup" for o in acl.items):
-            return None
+        if name == "insert" and (s.group_by or any(type(o).__name__ == "AceGroup" for o in acl.items)):
+            return None  # (append is position-independent: the new entry is the last rendered line in any structure)
         item = new_item(op[2] if name == "insert" else op[1], s.platform)
         if item["t"] == "rem" and item["text"].startswith(s.prefix):
             return None
